@@ -91,8 +91,11 @@ fn tolset(ga: f64, gr: f64, fe: f64, ia: f64, kt: f64) -> Value {
            "kt_thresh": fj(kt.recip() * 1000.0)})
 }
 
-pub fn begin_event(run: usize, p: &Problem, st: &DefaultSettings<f64>, sym: bool, pd: bool) -> Value {
+pub fn begin_event(run: usize, p: &Problem, st: &DefaultSettings<f64>, sym: bool, pd: bool, opts: &RunOpts) -> Value {
+    // an injected sleep longer than the time limit: the limit is exceeded during that pass
+    let sleep = opts.script.iter().find(|(pt, _, ms)| pt == "sleep" && ms / 1000.0 > st.time_limit);
     json!({"ev": "Begin", "run": run, "tag": p.tag, "c": {
+        "sleep_iter": sleep.map(|s| s.1 as i64).unwrap_or(-1),
         "maxiter": st.max_iter, "sym": sym, "pd": pd,
         "full": tolset(st.tol_gap_abs, st.tol_gap_rel, st.tol_feas, st.tol_infeas_abs, st.tol_ktratio),
         "reduced": tolset(st.reduced_tol_gap_abs, st.reduced_tol_gap_rel, st.reduced_tol_feas,
@@ -360,7 +363,7 @@ pub fn run_ipm(run: usize, p: &Problem, opts: &RunOpts) -> RunOut {
     verif::set_script(vec![]);
     match res {
         Ok((r, evs, sym, pd, icones, eq)) => {
-            let mut lines = vec![begin_event(run, p, &st, sym, pd)];
+            let mut lines = vec![begin_event(run, p, &st, sym, pd, opts)];
             lines.extend(convert_events(&evs, &st, &icones));
             let post = evs.iter().rev().find(|e| e.name == "PostSolution");
             let (d, o) = done_event(run, p, &st, &r, post);
